@@ -595,19 +595,6 @@ Proof.
   apply Forall_set_box; [exact Hb|apply box_ok_delete, Hok].
 Qed.
 
-Lemma Wk_finish_tail st bs' s rec wu items (f : list untagged -> out) :
-  Forall (fun nb => box_ok (snd nb)) bs' -> lookup GONE bs' = None ->
-  Wk (fst (match lookup (s_box s) bs' with
-           | None => reply st NO CNonexistent
-           | Some b' => let '(s', un) := finish b' s rec [] wu items in
-                        (set_sel st bs' (Some s'), f un)
-           end)) \/ lookup (s_box s) bs' = None.
-Proof.
-  intros Hb Hg. destruct (lookup (s_box s) bs') as [b'|] eqn:El; [left|right; reflexivity].
-  rewrite fst_let. cbn [fst]. split; [|split]; cbn [st_boxes st_sel set_sel]; [exact Hb|exact Hg|].
-  apply view_ok_finish; [|exact El]. exact (Forall_lookup _ _ _ _ Hb El).
-Qed.
-
 Lemma Wk_copy st uid ss dest : Wk st -> Wk (fst (t_copy st uid ss dest)).
 Proof.
   intros H. pose proof H as (Hb & Hg & Hs). unfold t_copy.
@@ -889,4 +876,11 @@ Lemma init_ok_maildir_Wk st : init_ok_maildir st = true -> Wk st.
 Proof.
   intros H. destruct (init_ok_maildir_Good st H) as [[HI|HG] Hg]; [apply Inv_Wk; assumption|].
   destruct HG as (_ & _ & s & Es & _). unfold init_ok_maildir in H. rewrite Es in H. discriminate.
+Qed.
+
+Lemma Wk_holds st :
+  (init_ok st = true \/ init_ok_maildir st = true \/
+   (Inv st /\ lookup GONE (st_boxes st) = None)) -> Wk st.
+Proof.
+  intros [H|[H|[H1 H2]]]; [apply init_ok_Wk, H|apply init_ok_maildir_Wk, H|apply Inv_Wk; assumption].
 Qed.
